@@ -17,7 +17,7 @@ fn any_tri(max: usize) -> Tri<usize> {
 // @clause a mesh can only be built from faces whose indices all refer to existing vertices: whenever Mesh::new / Builder::build return, every face index is < the vertex count, and faces and vertices are stored in the given order
 #[cfg(not(verif_skip_mesh_new_rejects_dangling_indices))]
 #[kani::proof]
-#[kani::unwind(6)]
+#[kani::unwind(12)]
 fn mesh_new_rejects_dangling_indices() {
     let nv: usize = kani::any();
     let nf: usize = kani::any();
@@ -55,7 +55,7 @@ fn mesh_new_rejects_dangling_indices() {
 // @clause Mesh::new accepts every face list whose indices are all < the vertex count (it never rejects a valid mesh)
 #[cfg(not(verif_skip_mesh_new_accepts_valid))]
 #[kani::proof]
-#[kani::unwind(6)]
+#[kani::unwind(12)]
 fn mesh_new_accepts_valid() {
     let nv: usize = kani::any();
     kani::assume(nv >= 1 && nv <= 3);
